@@ -51,6 +51,22 @@ CHECKS = {
             "4/C20", SEQ_NOTE + " -knbvm (Postgres) paths are out of reach."),
 }
 
+CONC_NOTE = ("Trusted: the cooperative scheduler and probe in hsverif/ (every shared file-system call and every condition-variable "
+             "operation of the store is a scheduling point; under the GIL nothing else lets threads of this code base interact), "
+             "CPython 3.12, tmpfs scratch. The sequential specification is the implementation itself run without preemption, so "
+             "defects already present sequentially are left to C03-C06/C11. Held = on the schedules counted in the evidence file.")
+CHECKS.update({
+    "C07": ("exploration", "conc", "runtime monitor: linearizability oracle over scheduler-controlled interleavings of the real code (preemption-bounded DFS + random walks + PCT)",
+            "Every pair (and sampled triples) of object calls sharing a pid/cid from 5 start states is executed under ALL schedules with <=1 (quick) / <=2 (thorough) preemptions at file-system-call and lock-operation granularity; each observed (outcomes, final state) must match a sequential order. Known non-linearizable mechanisms are listed in known_findings.json.",
+            "4/C07", CONC_NOTE),
+    "C08": ("exploration", "conc", "runtime monitor: state-based deadlock / leaked-lock detector inside the scheduler + follow-up calls, over controlled schedules and injected I/O faults",
+            "The scheduler owns every blocking primitive, so 'unfinished thread and none runnable' is observed, not timed out; locked-identifier lists must be empty at quiescence and follow-up calls must complete, after every explored schedule and after every injected fault.",
+            "4/C08", CONC_NOTE),
+    "C12": ("exploration", "conc", "runtime monitor: linearizability oracle (incl. reader bytes) over scheduler-controlled interleavings of metadata calls",
+            "All pairs / sampled triples of store/retrieve/delete_metadata and delete_object on one pid from 4 start states under all schedules with <=1/2 preemptions; the reader is a real client that reads in two chunks with a scheduling point in between.",
+            "4/C12", CONC_NOTE),
+})
+
 NOT_YET = {}
 
 
@@ -90,6 +106,8 @@ def main():
              "kind_free_text": "sequential differential monitor: real API calls, directory abstraction vs reference model after every call"},
             {"name": "config", "path": "/verif/hsverif/props/", "serves_properties": [c for c in CHECKS if CHECKS[c][1] == "config"],
              "kind_free_text": "snapshot / layout monitors around constructor and argument-validation paths"},
+            {"name": "conc", "path": "/verif/hsverif/concengine.py", "serves_properties": [c for c in CHECKS if CHECKS[c][1] == "conc"],
+             "kind_free_text": "cooperative scheduler over real threads running the real code; probe = run-time interposition on os/open/fcntl and the store's condition variables"},
             {"name": "cli", "path": "/verif/hsverif/props/C20.py", "serves_properties": [c for c in CHECKS if CHECKS[c][1] == "cli"],
              "kind_free_text": "differential monitor: client entry point vs API"},
         ],
